@@ -14,20 +14,32 @@ implementation's own output (kind "prop"): knots reproduced, dense samples bound
 neighbouring ordinates and monotone, C1 across knots, Taylor consistency of the reported derivatives,
 linear / parabola exactness, 2-D nodes / hull / edge continuity / bilinear exactness.
 """
-import bisect, math, random, struct
+import bisect, math, os, random, struct
 from fractions import Fraction
 from common import *
 
 RULE = ("tables and query points are drawn from VERIF_SEED (families: smooth, jittered, wild spacing ratios to 1e9, "
         "offsets to 1e8, ordinates 1e-20..1e20 mixed sign, plateaus, spikes, sign changes, monotone, zeros, exact "
-        "linear/parabola data, the same and general tables at joint scales x*2^Ex, y*2^Ey (|Ex| to 480: slopes 1e-120..1e160), dyadic uniform tables compared exactly, float32 tables with float32 unit factors, "
+        "linear/parabola data, the same and general tables at joint scales x*2^Ex, y*2^Ey (Ex -300..330: slopes 1e-120..1e110), dyadic uniform tables compared exactly, float32 tables with float32 unit factors, "
         "prefactors of either sign); a case is non-trivial when model and implementation both answer ok or both stop; "
         "it is counted once per distinct (op, family, size class, query class: knot / knot neighbour / interior / "
         "extrapolation zone / derivative order)")
 CORR_ONLY = ["interior rounding-level overshoot / backward steps (accepted up to K_OVER=32 eps*max(|y_j|,|y_j+1|), see ASSUMPTIONS; measured per run in input_distribution.worst_overshoot / worst_nonmonotone)",
              "the 1% extrapolation zone: values and derivatives compared against the model, no monotonicity claim there"]
-ASSUMPTIONS = ["unit factors x_dim/f_dim are compared on tables whose products with the factor are exact in double "
-               "(float32 tables and factors): the model multiplies exactly, the C++ rounds each product",
+ASSUMPTIONS = ["unit factors: where every product with the factor is exact in double (float32 tables and factors, powers of two) the "
+               "implementation is compared with the model; on general doubles with non-dyadic factors (family unitx) the model, which "
+               "multiplies exactly, cannot follow the rounded products and the request is judged by the oracle on the implementation alone, "
+               "on the table as the constructor stores it (fl(x*x_dim), fl(y*f_dim))",
+               "OPEN DEFECT C01-2 (proposed repair /tmp/fixprop-C01-2): a table whose STORED abscissae are not strictly increasing (two "
+               "neighbours collapse under the unit factor; a NaN abscissa, 1-D and 2-D) must stop with a diagnostic; while PENDING_C01_2 "
+               "is True an accepting implementation is tolerated and counted (input_distribution.pending_C01_2_accepted:*)",
+               "abscissa scale: pow(h,2) and (x-x_j)^3 are formed in doubles, so intervals h below ~1e-103 (h^3, y/h^3 under/overflow) or above "
+               "~1e110 ((x-x_j)^3 overflows, 0*inf = NaN) are outside the checked domain; also exact straight-line data are hit (the one-sided end slope is "
+               "m*(1+O(eps)), so a = O(eps*m/h^2) overflows below h ~ 1e-101: found by this check at x-scale 2^-339 and 2^-472); generated tables "
+               "keep the x-scale in 2^-300..2^330 for straight-line data and 2^-300..2^300 otherwise",
+               "2-D grids need at least three points per axis: Interpolation_2D locates through two 1-D Interpolation (Steffen) objects whose "
+               "constructor demands N >= 3 ('At least three points are required', naming the 1-D class); 2xM / Nx2 grids stop with that "
+               "diagnostic in implementation and model alike - a stated restriction of the constructor, not of bilinear interpolation",
                "the exact one-percent edge is requested (meaningful since fix a411065) on tables where 0.01*h, the edge and |x-x_0| are exact "
                "doubles; all other query points are kept a relative margin >= 2^-50 (8.9e-16) away from the 1% extrapolation boundary: the code forms the "
                "boundary as fl(1e-2*fl(x_1-x_0)) and compares fl(|x-x_0|) with it, which decides correctly only beyond ~3e-16 relative",
@@ -70,6 +82,12 @@ K_ALLOW = 4        # 2-D: factor on the a-priori rounding bound allowance_2d (we
                    # effective 2-D slack is min(K_ALLOW*allowance, K*eps*Fm)
 
 INF = math.inf
+
+# Open defect C01-2 (audit 2, P9; proposed repair /tmp/fixprop-C01-2): the 1-D constructor tests 'strictly increasing' BEFORE
+# the unit conversion and with a comparison NaN passes.  While the repair is not in /repo the strict clause ("a table whose
+# STORED abscissae are not strictly increasing stops with a diagnostic") is tolerated and only counted; it is switched on by
+# setting PENDING_C01_2 = False, or for a rehearsal by LP_ASSUME_FIXED=C01-2.
+PENDING_C01_2 = "C01-2" not in os.environ.get("LP_ASSUME_FIXED", "").replace(" ", "").split(",")
 
 
 def f32(x):
@@ -241,7 +259,7 @@ def queries_1d(rng, xs, nseg, ndense, shuffle=True, zone=True):
             for frac in (rng.uniform(0.01, 0.98), 0.999):
                 x = zone_point(rng, xs, side, frac)
                 if x is not None:
-                    for c in (-1, 1, 2, 3):
+                    for c in (-1, 0, 1, 2, 3, 4, rng.choice([5, 7, 100])):   # every order, also 0 and >= 4, in the zone
                         Q.append((x, c))
     if shuffle:
         rng.shuffle(Q)
@@ -250,14 +268,14 @@ def queries_1d(rng, xs, nseg, ndense, shuffle=True, zone=True):
     return Q
 
 
-def req_1d(op, tag_, xs, ys, xdim, fdim, pref, mul, Q):
-    return "%s %s %s %s %s %s %s %s %d %s" % (op, tag_, lst(xs), lst(ys), hx(xdim), hx(fdim), hx(pref), hx(mul), len(Q),
+def req_1d(op, tag_, xs, ys, xdim, fdim, pref, mul, Q, ctor=0):
+    return "%s %s %d %s %s %s %s %s %s %d %s" % (op, tag_, ctor, lst(xs), lst(ys), hx(xdim), hx(fdim), hx(pref), hx(mul), len(Q),
                                                " ".join("%s %d" % (hx(x), c) for x, c in Q))
 
 
-def req_2d(op, tag_, xs, ys, F, xdim, ydim, fdim, pref, mul, Q):
-    return "%s %s %s %s %d %s %s %s %s %s %s %d %s" % (
-        op, tag_, lst(xs), lst(ys), len(F), " ".join(lst(r) for r in F), hx(xdim), hx(ydim), hx(fdim), hx(pref), hx(mul),
+def req_2d(op, tag_, xs, ys, F, xdim, ydim, fdim, pref, mul, Q, ctor=0):
+    return "%s %s %d %s %s %d %s %s %s %s %s %s %d %s" % (
+        op, tag_, ctor, lst(xs), lst(ys), len(F), " ".join(lst(r) for r in F), hx(xdim), hx(ydim), hx(fdim), hx(pref), hx(mul),
         len(Q), " ".join("%s %s" % (hx(x), hx(y)) for x, y in Q))
 
 
@@ -345,13 +363,13 @@ def generate(tier, seed, ctx):
     # ---- joint scale: ordinates inside 1e-20..1e20, abscissa scale 2^Ex huge or tiny, so that the secant slopes span
     #      ~1e-120 .. 1e+160 (far outside the float range on both sides).  Scales are powers of two (exact), applied either
     #      directly or through the unit factors x_dim / f_dim.  Limits: (x-x_j)^3 and 1/h^2, y/h^3 must stay finite
-    #      normal doubles in the code as written (IEEE over/underflow is outside the model), hence |Ex| <= ~330.
+    #      normal doubles in the code as written (IEEE over/underflow is outside the model), hence -300 <= Ex <= 330.
     for k in range(240 if thorough else 30):
         mode = ("lin", "par", "gen")[k % 3]
         via_units = (k // 3) % 2 == 0
         pref, mul = pick_pref(rng)
         if mode == "lin":
-            Ex = rng.choice([rng.randint(-480, -120), rng.randint(120, 330), rng.randint(-480, 330)])
+            Ex = rng.choice([rng.randint(-300, -120), rng.randint(120, 330), rng.randint(-300, 330)])
             Ey = rng.randint(-66, 48)
             N = rng.choice([3, 4, 7, 20])
             g = sorted(set(rng.randint(-1000, 1000) for _ in range(N + 3)))
@@ -550,12 +568,18 @@ def generate(tier, seed, ctx):
         rng.shuffle(Q)
         pref, mul = pick_pref(rng)
         R.append(req_2d("c01.eval2", tag_, xs, ys, F, xdim, ydim, fdim, pref, mul, Q))
-    for k in range(20 if thorough else 8):
+    for k in range(25 if thorough else 10):
         nx, ny = rng.randint(3, 5), rng.randint(3, 5)
         xs = gen_xs(rng, nx, "jitter"); ys = gen_xs(rng, ny, "jitter")
         F = [[rng.uniform(-1, 1) for _ in range(ny)] for _ in range(nx)]
-        c = k % 4
+        c = k % 5
         q = (rng.uniform(xs[0], xs[-1]), rng.uniform(ys[0], ys[-1]))
+        if c == 4:      # a 2 x M / N x 2 grid: the 1-D locator objects need three points per axis (stated restriction)
+            if k % 2:
+                xs = xs[:2]; F = F[:2]
+            else:
+                ys = ys[:2]; F = [r[:2] for r in F]
+            q = (xs[0], ys[0])
         if c == 0:
             z = zone_point(rng, xs, rng.choice([-1, 1]), rng.choice([1.5, 30.0]))
             if z is None:
@@ -568,9 +592,68 @@ def generate(tier, seed, ctx):
             q = (q[0], z)
         elif c == 2:
             F[rng.randrange(nx)].pop()                   # ragged
-        else:
+        elif c == 3:
             F.pop()                                       # wrong number of rows
-        R.append(req_2d("c01.eval2x", "bad", xs, ys, F, -1.0, -1.0, -1.0, 1.0, 1.0, [q]))
+        R.append(req_2d("c01.eval2x", "bad2pt" if c == 4 else "bad", xs, ys, F, -1.0, -1.0, -1.0, 1.0, 1.0, [q]))
+    # ---- unit factors on GENERAL doubles with non-dyadic factors (products round): the model multiplies exactly and cannot
+    #      follow, so these are judged by the oracle on the implementation alone, on the table AS STORED (fl(x*x_dim));
+    #      ulp-spaced abscissae collapse under such a factor: the stored table is then not strictly increasing -> diagnostic
+    FACT = [0.7, 1.0 / 3.0, 4.8e31, 1.2345e-9, math.pi, 0.9, 0.55, 1e-20, 3.3e7]
+    for k in range(400 if thorough else 40):
+        xdim = rng.choice(FACT); fdim = rng.choice(FACT + [-1.0, 0.0])
+        if k % 2 == 0:
+            N = rng.randint(3, 30)
+            xs0 = gen_xs(rng, N, rng.choice(["jitter", "wild", "offset", "log"]))
+            ys0 = gen_ys(rng, xs0, rng.choice(["smooth", "monotone", "plateau", "signchange", "mixed"]))
+        else:      # neighbours 1-3 ulp apart
+            N = rng.randint(3, 8)
+            x = rng.choice([-1, 1]) * 10.0 ** rng.uniform(0, 8); xs0 = [x]
+            for _ in range(N - 1):
+                for _ in range(rng.randint(1, 3)):
+                    x = na(x, INF)
+                xs0.append(x)
+            ys0 = [float(i + 1) for i in range(N)] if k % 4 == 1 else gen_ys(rng, xs0, "mixed")
+            xdim = rng.choice([0.7, 0.9, 0.55, 1.0 / 3.0])
+        xs1 = [v * xdim for v in xs0]
+        pref, mul = pick_pref(rng)
+        if all(b > a for a, b in zip(xs1, xs1[1:])):
+            if k % 2 == 0:
+                Q = queries_1d(rng, xs1, nseg=6, ndense=10)
+            else:
+                Q = [(v, c) for v in xs1 for c in (-1, 0)]
+            R.append(req_1d("c01.evalx", "unitx", xs0, ys0, xdim, fdim, pref, mul, Q, ctor=rng.choice([0, 1, 2])))
+        else:
+            R.append(req_1d("c01.evalx", "unitx", xs0, ys0, xdim, fdim, pref, mul, [(xs1[0], -1), (xs1[-1], -1)], ctor=rng.choice([0, 2])))
+    # ---- NaN abscissae (1-D lists / table constructor, 2-D either axis): never a strictly increasing table
+    for k in range(40 if thorough else 12):
+        N = rng.randint(3, 7)
+        xs0 = gen_xs(rng, N, "jitter"); ys0 = gen_ys(rng, xs0, "smooth")
+        pos = rng.choice([0, N - 1, rng.randrange(N)])
+        q = rng.uniform(xs0[0], xs0[-1])
+        if k % 3 < 2:
+            xs0[pos] = math.nan
+            R.append(req_1d("c01.evalx", "nan", xs0, ys0, rng.choice([-1.0, 0.7]), -1.0, 1.0, 1.0, [(q, -1)], ctor=rng.choice([0, 2])))
+        else:
+            g2 = gen_xs(rng, 3, "jitter"); F = [[rng.uniform(-1, 1) for _ in range(3)] for _ in range(N)]
+            if k % 2:
+                xs0[pos] = math.nan
+                R.append(req_2d("c01.eval2x", "nan", xs0, g2, F, -1.0, -1.0, -1.0, 1.0, 1.0, [(q, g2[1])]))
+            else:
+                g3 = list(g2); g3[rng.randrange(3)] = math.nan
+                R.append(req_2d("c01.eval2x", "nan", xs0, g3, F, rng.choice([-1.0, 0.7]), -1.0, -1.0, 1.0, 1.0, [(q, g2[1])]))
+    # ---- default constructors: Interpolation() is the table {-1,0,1} -> 0, Interpolation_2D() the zero 3x3 grid on {-1,0,1}^2
+    for k in range(6 if thorough else 3):
+        dx = [-1.0, 0.0, 1.0]
+        pref, mul = pick_pref(rng)
+        R.append(req_1d("c01.eval", "default", dx, [0.0, 0.0, 0.0], -1.0, -1.0, pref, mul, queries_1d(rng, dx, nseg=2, ndense=6), ctor=3))
+        Q = [(a, b) for a in dx for b in dx] + [(rng.uniform(-1, 1), rng.uniform(-1, 1)) for _ in range(10)] + [(-1.005, 0.3), (0.2, 1.01)]
+        R.append(req_2d("c01.eval2", "default", dx, dx, [[0.0] * 3] * 3, -1.0, -1.0, -1.0, pref, mul, Q, ctor=3))
+    # ---- constructor / call spelling: the in-process requests above cycle through lists+operator(), lists+named Interpolate(),
+    #      and the table constructors (1-D: vector<vector<double>> rows {x,y}; 2-D: rows {x,y,f}, x-major)
+    for i, rq in enumerate(R):
+        t = rq.split(" ", 3)
+        if t[0] in ("c01.eval", "c01.eval2") and t[2] == "0":
+            R[i] = " ".join([t[0], t[1], str((0, 1, 2)[i % 3]), t[3]])
     return R
 
 
@@ -598,6 +681,7 @@ def parse(rq):
     t = rq.split()
     c = Cur(t)
     P = dict(op=c.tok(), tag=c.tok())
+    P["ctor"] = int(c.tok())
     P["xs0"] = c.dbls(); P["ys0"] = c.dbls()
     if P["op"].startswith("c01.eval2"):
         rows = int(c.tok())
@@ -819,7 +903,7 @@ def oracle_1d(P, vals, ctx):
                 continue
             hm = X[j] - X[j - 1]
             gap = X[j] - Fraction(xl)
-            Ym = max(abs(Y[j - 1]), abs(Y[j]), abs(Y[j + 1]))
+            Ym = max(abs(Y[j - 1]), abs(Y[j]))      # the LEFT interval's data scale only (audit 2: y_{j+1} made it up to 1e40 too loose)
             vb = dk.get(-1, dk.get(0))
             if vb is not None:
                 t = [Fraction(dl_[-1]), Fraction(dl_[1]) * gap, Fraction(dl_[2]) * gap ** 2 / 2, Fraction(dl_[3]) * gap ** 3 / 6]
@@ -963,6 +1047,9 @@ def compare(rq, impl, model, ctx):
     two = op.startswith("c01.eval2")
     fam = P["tag"].split(":")[0]
     bump(ctx, op + ":" + fam)
+    bump(ctx, "ctor%d:%s" % (P["ctor"], "2d" if two else "1d"))
+    if fam in ("unitx", "nan"):
+        return compare_oracle_only(P, impl, ctx)
     fs, both = std_outcome(rq, impl, model)
     out = []
     vals = None
@@ -1026,13 +1113,44 @@ def compare(rq, impl, model, ctx):
     return fs + _dedup(out) + _dedup(corr, 3)
 
 
+def compare_oracle_only(P, impl, ctx):
+    """families the exact-rational model cannot follow (rounded unit products, NaN): the expected OUTCOME is computed from the
+    table as the constructor stores it, the values are judged by the property oracle on the implementation alone"""
+    two = P["op"].startswith("c01.eval2")
+    if crashed(impl):
+        return [fail("prop", "crash/sanitizer/silent exit: " + tag(impl), impl[:200])]
+    if two:
+        stored = [scaled(P["xs0"], P["xdim"]), scaled(P["ys0"], P["ydim"])]
+    else:
+        stored = [scaled(P["xs0"], P["xdim"])]
+    increasing = all(all(b > a for a, b in zip(g, g[1:])) for g in stored)     # False also with NaN
+    ctx["nontrivial"].add((P["op"], P["tag"], increasing, tag(impl), P["ctor"]))
+    if not increasing:
+        if tag(impl) == "err":
+            return []
+        what = "NaN abscissa" if P["tag"] == "nan" else "two abscissae collapse under the unit factor"
+        if PENDING_C01_2:
+            bump(ctx, "pending_C01_2_accepted:" + ("nan" if P["tag"] == "nan" else "collapse"))
+            return []
+        return [fail("prop", "a table whose stored abscissae are not strictly increasing was accepted (%s)" % what, impl[:200])]
+    if tag(impl) != "ok":
+        return [fail("prop", "meaningful request terminated the process", impl[:200])]
+    vals = [fl(t) for t in toks(impl)]
+    if len(vals) != len(P["Q"]):
+        return [fail("corr", "protocol: wrong number of answers", "")]
+    bump(ctx, "queries_oracle_only", len(vals))
+    return _dedup((oracle_2d if two else oracle_1d)(P, vals, ctx))
+
+
 def oracle_only(rq, impl, ctx):
+    P = parse(rq)
+    if P["tag"].split(":")[0] in ("unitx", "nan"):
+        return compare_oracle_only(P, impl, ctx)
     if tag(impl) != "ok":
         return []
-    P = parse(rq)
     vals = [fl(t) for t in toks(impl)]
     if len(vals) != len(P["Q"]):
         return []
-    if P["tag"] in ("zone", "bad"):
+    if P["tag"] in ("zone", "bad", "bad2pt"):
         return []
     return _dedup((oracle_2d if P["op"].startswith("c01.eval2") else oracle_1d)(P, vals, ctx))
